@@ -650,6 +650,7 @@ func TestVerif(t *testing.T) {
 		vrep.AddInt("families", 1)
 	}
 	depThroughGraph(&evals, &trans)
+	depAssignment(&evals, &trans)
 	outputHashFamily(&evals, &trans)
 	vrep.Counts(evals, evals, trans, evals)
 	vrep.AddInt("state_pairs_compared", pairs)
@@ -706,6 +707,65 @@ func depThroughGraph(evals, trans *int64) {
 			vrep.Nontrivial.Add("depgraph|" + shape + "|" + algo)
 			if keys["h1"] == keys["h2"] && keys["h1"] != "" {
 				vrep.Violation("collision:dependency digest via "+shape, fmt.Sprintf("target //p:top depends on //p:dep (%s); dep output digest h1 vs h2 gives the same key %s", shape, keys["h1"]), map[string]any{"shape": shape, "algo": algo})
+			}
+		}
+	}
+}
+
+// depAssignment drives the real TargetHasher over a graph in which the target has TWO dependencies (direct, through
+// aliases, one of each; in either declaration order): the key is a function of which dependency has which output
+// digest, not of the multiset of digests (output paths are relative to the producing package, so //a:gen and //b:gen
+// may well produce "the same" output hash for different files), and it does not depend on the declaration order.
+func depAssignment(evals, trans *int64) {
+	config.Global.WorkspaceRoot = roots[0]
+	config.Global.OS, config.Global.Arch = "linux", "amd64"
+	for _, algo := range []string{config.HashAlgorithmXXH3, config.HashAlgorithmSHA256} {
+		config.Global.HashAlgorithm = algo
+		for _, shape := range []string{"direct+direct", "alias+alias", "direct+alias"} {
+			keys := map[string]string{} // "assignment|order" -> key
+			for _, assign := range [][2]string{{"h1", "h2"}, {"h2", "h1"}, {"h1", "h1"}} {
+				for _, reversed := range []bool{false, true} {
+					a := &model.Target{Label: label.TL("a", "gen"), Command: "c"}
+					b := &model.Target{Label: label.TL("b", "gen"), Command: "c"}
+					ala := &model.Alias{Label: label.TL("top", "ala"), Actual: a.Label}
+					alb := &model.Alias{Label: label.TL("top", "alb"), Actual: b.Label}
+					top := &model.Target{Label: label.TL("top", "join"), Command: "c"}
+					da, db := a.Label, b.Label
+					switch shape {
+					case "alias+alias":
+						da, db = ala.Label, alb.Label
+					case "direct+alias":
+						db = alb.Label
+					}
+					top.Dependencies = []label.TargetLabel{da, db}
+					if reversed {
+						top.Dependencies = []label.TargetLabel{db, da}
+					}
+					graph, err := analysis.BuildGraph(model.BuildNodeMapFromNodes(a, b, ala, alb, top))
+					if err != nil {
+						vrep.Broken("graph: %v", err)
+						return
+					}
+					a.OutputHash, b.OutputHash = assign[0], assign[1]
+					*evals++
+					*trans++
+					if err := hashing.NewTargetHasher(graph).SetTargetChangeHash(top); err != nil {
+						vrep.Violation("dephash-error:"+shape, err.Error(), map[string]any{"shape": shape})
+						continue
+					}
+					keys[fmt.Sprintf("%s,%s|%v", assign[0], assign[1], reversed)] = top.ChangeHash
+					vrep.Outcomes.Add(top.ChangeHash)
+				}
+			}
+			vrep.Nontrivial.Add("depassign|" + shape + "|" + algo)
+			id := map[string]any{"shape": shape, "algo": algo}
+			if keys["h1,h2|false"] == keys["h2,h1|false"] && keys["h1,h2|false"] != "" {
+				vrep.Violation("collision:two dependencies trade their output hashes ("+shape+")", fmt.Sprintf("//top:join depends on //a:gen and //b:gen (%s): (a=h1, b=h2) and (a=h2, b=h1) give the same key %s; output hashes do not say whose outputs they describe", shape, keys["h1,h2|false"]), id)
+			}
+			for _, as := range []string{"h1,h2", "h2,h1", "h1,h1"} {
+				if keys[as+"|false"] != keys[as+"|true"] {
+					vrep.Violation("spurious:dependency declaration order ("+shape+")", fmt.Sprintf("declaring the two dependencies in the other order changes the key (%s)", as), id)
+				}
 			}
 		}
 	}
